@@ -362,3 +362,16 @@ package codegen
 //@   at (*ModuleBuilder).AddMemberDecorate#3 assert [matrix-stride] arg1 == structID && arg2 == uint32(memberIndex) && arg3 == DecorationMatrixStride && len(arg4) == 1 && arg4[0] == ite(mat.Rows == ir.Vec2, uint32(2), uint32(4)) * uint32(mat.Scalar.Width)
 //@   loop 2 step [seen-through-arrays] !is(memberInner, ir.ArrayType)
 //@   loop 2 step [matrix-gets-decorated] true
+
+// ---- f16 constants (C01, C06) -----------------------------------------------------------
+//
+// The bits of an OpConstant of type half: IEEE-754 binary16 round-to-nearest-even
+// of the f32 value, bit for bit (same statement as wgsl/internal/lower.float32ToHalf).
+//
+//@ func float32ToF16Bits
+//@   mode bv
+//@   tags C01 C06
+//@   ensures [rne] !isnan(f) ==> same(fromhalfbits(uint16(result)), tohalf(f)) && result <= 0xffff
+//@   ensures [nan] isnan(f) ==> isnan(fromhalfbits(uint16(result))) && result <= 0xffff
+//@   pure
+//@   nopanic
